@@ -38,10 +38,13 @@ def replay(path):
         print(f"REPLAY unexpected exception {type(ex).__name__}: {str(ex)[:200]} @ {site}")
         traceback.print_exc()
         return 0
-    if E.assumption_broken:
+    # a failure counts if it happened before the replay ran past the recorded model (inputs created
+    # after the failing obligation have no recorded value) and before any assumption broke
+    first_broken = min(E.assumption_broken) if E.assumption_broken else None
+    hit = [f for f in E.failed if f["obligation"] == want and f.get("before_missing", True) and (first_broken is None or f["pos"] <= first_broken)]
+    if not hit and E.assumption_broken:
         print(f"REPLAY not-reproduced (an assumption of the harness does not hold for the rounded model; missing={E.missing[:3]})")
         return 0
-    hit = [f for f in E.failed if f["obligation"] == want]
     if hit:
         print(f"REPLAY reproduced {want} on the real code: {hit[0].get('info')}")
         return 1
